@@ -434,6 +434,20 @@ func Random(j *job.Job, s *job.Sink) {
 			s.Count("deeply_nested_texts", 1)
 		}
 		t := g.text()
+		if i%300 == 7 {
+			// a very long first line: whatever stands on it comes after column 65536 (a long
+			// single-quoted or double-quoted argument, or a long comment, ahead of it)
+			n := 65500 + g.r.Intn(5000)
+			switch g.r.Intn(3) {
+			case 0:
+				t = "x '" + strings.Repeat("y", n) + "'; " + t
+			case 1:
+				t = "/* " + strings.Repeat("é", n) + " */ " + t
+			default:
+				t = "x \"" + strings.Repeat("z\t", n/2) + "\" { " + t + " }"
+			}
+			s.Count("texts_with_a_line_longer_than_65535", 1)
+		}
 		if i%256 == 0 {
 			s.Current(i, map[string]any{"text": t})
 		}
